@@ -195,7 +195,7 @@ def build_unit(chk):
     sysc = simx.syscall_fn(m, in_ty)
     cond, step, ret = simx.run_parts(m)
     tb_prelude = tbunit.TB_PRELUDE.replace("#ifndef TB_NO_GLOBALS\nbool verif_thrown;\n#endif\n", "bool verif_thrown;\n")
-    text = (pre + vtext + tb_prelude + consts + en + simunit.GHOST_IO + fld + simunit.ACCESSORS + io + sysc + simunit.NO_TRACE_STUBS + step
+    text = (pre + vtext + tb_prelude + consts + en + simunit.GHOST_IO + fld + simunit.ACCESSORS + io + sysc + simunit.NO_TRACE_STUBS + step + simunit.hidden_text(chk, m, names)
             + "#define TB_SYSCALL_ENTRY(sc) ((void)0)\n" + tbx.handleSyscall(m))
     rp, prologue = tbx.run_parts(m)
     text += rp + tbunit.TB_POWER_ON.replace("#ifdef HEX_CBMC\n", "#ifdef HEX_CBMC\n", 1)
